@@ -661,6 +661,20 @@ fn check_dag(rep: &mut OracleReport, d: &[DNode]) {
                     }
                     other => rep.fail("triples_eq_def", format!("dag={} got={:?}", desc(), other.map(|(r, h)| (r.len(), h.map(|h| h.first().map(hex::encode)))).map_err(|e| err_kind(&e)))),
                 }
+                // the same through a reader that returns short reads (socket / pipe / decompressor): the
+                // reader's chunking must not be observable
+                if b.len() < 20_000 {
+                    for chunk in [1usize, 5, 7, 64, 257] {
+                        let mut cr = ChunkedReader { data: &b[..], pos: 0, chunk };
+                        match parse_triples(&mut cr, true) {
+                            Ok((_, Some(hs))) if !hs.is_empty() && hs[0] == want => {}
+                            other => {
+                                rep.fail("triples_chunked", format!("dag={} reads of at most {} bytes: got={:?}", desc(), chunk, other.map(|(r, h)| (r.len(), h.map(|h| h.first().map(hex::encode)))).map_err(|e| err_kind(&e))));
+                                break;
+                            }
+                        }
+                    }
+                }
             }
             Err(e) => rep.fail("stream_eq_def", format!("dag={} node_to_bytes err={}", desc(), err_kind(&e))),
         }
@@ -743,4 +757,20 @@ pub fn oracle(name: &str, rng: &mut Rng, n: usize, tier: &str) -> OracleReport {
         _ => panic!("unknown oracle {name}"),
     }
     rep
+}
+
+/// an `io::Read` that never returns more than `chunk` bytes per call
+struct ChunkedReader<'a> {
+    data: &'a [u8],
+    pos: usize,
+    chunk: usize,
+}
+
+impl std::io::Read for ChunkedReader<'_> {
+    fn read(&mut self, buf: &mut [u8]) -> std::io::Result<usize> {
+        let n = buf.len().min(self.chunk).min(self.data.len() - self.pos);
+        buf[..n].copy_from_slice(&self.data[self.pos..self.pos + n]);
+        self.pos += n;
+        Ok(n)
+    }
 }
